@@ -23,6 +23,45 @@ from .rawstate import Raw
 MODES = ['no', 'yes', 'keep', 'auto']
 
 
+class ShortReader(io.RawIOBase):
+    """A legitimate binary stream whose read(n) may return fewer than n bytes before EOF (pipe/socket semantics)."""
+
+    mode = 'rb'
+
+    def __init__(self, data: bytes, step: int):
+        super().__init__()
+        self._data = data
+        self._pos = 0
+        self._step = max(1, step)
+
+    def readable(self):
+        return True
+
+    def seekable(self):
+        return True
+
+    def read(self, size=-1):
+        if size is None or size < 0:
+            size = len(self._data) - self._pos
+        n = min(size, self._step, len(self._data) - self._pos)
+        out = self._data[self._pos:self._pos + n]
+        self._pos += n
+        return out
+
+    def seek(self, target, whence=0):
+        if whence == 0:
+            self._pos = target
+        elif whence == 1:
+            self._pos += target
+        else:
+            self._pos = len(self._data) + target
+        self._pos = max(0, min(self._pos, len(self._data)))
+        return self._pos
+
+    def tell(self):
+        return self._pos
+
+
 def _mode_obj(dos, m):
     from disk_objectstore.utils import CompressMode  # pylint: disable=import-outside-toplevel
 
@@ -134,6 +173,7 @@ class Runner:
         self.check_views = check_views
         self.bogus_keys = bogus_keys
         self.step = 0
+        self.damaged: set = set()  # (container, cid) whose loose file was overwritten from outside
         self.prev_packs: dict[str, dict[str, bytes]] = {}
         for name, cfg in cfgs.items():
             folder = os.path.join(scratch, name)
@@ -142,6 +182,15 @@ class Runner:
             self._ask(f'store new {name} {cfg.target}')
             self._ask(f'store tab {name} {pool.tab_entries(level=cfg.level)}')
             self.prev_packs[name] = {}
+
+    def grow_pool(self, data: bytes) -> int:
+        """add a content to the pool (e.g. the garbage written over a loose file) and tell the model its table entry"""
+        before = len(self.pool)
+        cid = self.pool.add(data)
+        if len(self.pool) > before:
+            for name, rc in self.conts.items():
+                self._ask(f'store tab {name} {self.pool.tab_entries(start=before, level=rc.cfg.level)}')
+        return cid
 
     def _ask(self, line: str) -> str:
         out = self.drv.ask(line)
@@ -163,6 +212,14 @@ class Runner:
         pre = rc.raw()
         real_out = self._real(rc, op)
         post = rc.raw()
+        if op['op'] == 'damage':
+            self.damaged.add((rc.name, op['k']))
+        elif op['op'] == 'addLoose':
+            self.damaged.discard((rc.name, op['c']))
+            key = rc.key(op['c'])
+            if key in post.loose_bytes and post.loose_bytes[key] != self.pool.contents[op['c']]:
+                self._fail('C09', 'damaged-loose-not-repaired',
+                           f're-adding cid {op["c"]} left a loose file with {len(post.loose_bytes[key])} wrong bytes in place')
         line = self._model_line(rc, op, pre, post)
         rec = dict(op)
         if line is not None:
@@ -190,6 +247,8 @@ class Runner:
                 data = pool.contents[op['c']]
                 if op.get('via') == 'stream':
                     key = c.add_streamed_object(io.BytesIO(data))
+                elif op.get('via') == 'short':
+                    key = c.add_streamed_object(ShortReader(data, op.get('short', 7)))
                 else:
                     key = c.add_object(data)
                 rc.expected.add(op['c'])
@@ -205,6 +264,8 @@ class Runner:
                     keys = c.add_objects_to_pack(datas, **kw)
                 elif via == 'streams':
                     keys = c.add_streamed_objects_to_pack([io.BytesIO(d) for d in datas], **kw)
+                elif via == 'short':
+                    keys = c.add_streamed_objects_to_pack([ShortReader(d, op.get('short', 7)) for d in datas], **kw)
                 elif via == 'lazy':
                     from disk_objectstore.utils import LazyOpener  # pylint: disable=import-outside-toplevel
                     from pathlib import Path  # pylint: disable=import-outside-toplevel
@@ -241,6 +302,9 @@ class Runner:
             if kind == 'repack':
                 c.repack(compress_mode=_mode_obj(rc.dos, op['mode']))
                 return 'ok'
+            if kind == 'repackOne':
+                c.repack_pack(str(op['p']), compress_mode=_mode_obj(rc.dos, op['mode']))
+                return 'ok'
             if kind == 'loosen':
                 try:
                     c.loosen_object(rc.key(op['k']))
@@ -274,9 +338,9 @@ class Runner:
                     out.append(oc if oc is not None else -1)
                 return f'mapped={show_nats(sorted(out))}'
             if kind == 'damage':
-                path = pre_path = rc.raw().loose_paths.get(rc.key(op['k']))
-                if pre_path is None:
-                    return 'ok'
+                path = rc.raw().loose_paths.get(rc.key(op['k']))
+                if path is None:
+                    raise common.Infra('damage of a key that is not loose')
                 with open(path, 'wb') as fh:
                     fh.write(self.pool.contents[op['c']])
                 return 'ok'
@@ -315,6 +379,12 @@ class Runner:
                 zs = [1 if r[5] else 0 for r in rs]
                 parts.append(f'{p}:{show_nats(order)}:{show_nats(zs)}')
             return f'store op {n} repack {_mode_name(op["mode"])} {"|".join(parts) if parts else "-"}'
+        if kind == 'repackOne':
+            p = op['p']
+            rs = rows_sorted_for_order([r for r in post.rows if r[2] == p])
+            order = [self._cid_or(rc, r[1]) for r in rs]
+            zs = [1 if r[5] else 0 for r in rs]
+            return f'store op {n} repack {_mode_name(op["mode"])} {p}:{show_nats(order)}:{show_nats(zs)}'
         if kind == 'loosen':
             return f'store op {n} loosen {op["k"]}'
         if kind == 'reopen':
@@ -336,7 +406,8 @@ class Runner:
             same = src.cfg.hash_type == rc.cfg.hash_type
             # a skipped stream processed after the last write may still have opened (created) the next pack
             valid = sorted(int(x) for x in post.pack_names_valid())
-            trailing = bool(valid) and str(valid[-1]) not in pre.pack_bytes and len(post.pack_bytes.get(str(valid[-1]), b'x')) == 0
+            trailing = (bool(valid) and str(valid[-1]) not in pre.pack_bytes and len(post.pack_bytes.get(str(valid[-1]), b'x')) == 0
+                        and not any(r[2] == valid[-1] for r in post.rows))
             return f'store op {n} import {b01(op["compress"])} {b01(same)} {b01(trailing)} {show_nats(written)} {show_nats(order)}'
         if kind == 'damage':
             return f'store op {n} damage {op["k"]} {op["c"]}'
@@ -465,8 +536,33 @@ class Runner:
         if real.startswith('raised'):
             self._fail('C02', 'view-raised', f'views raised after {kind}: {real[:200]}')
             return
+        dmg = {k for (nm, k) in self.damaged if nm == rc.name}
+        if dmg and not any(rc.key(k) in getattr(val, 'invalid_hashes_loose') for k in dmg if rc.key(k) in post.loose_bytes):
+            self._fail('C12', 'false-negative-loose', f'validate() is clean although the loose file of cid {sorted(dmg)} was overwritten')
+        if vs != '-/-/-/-' and not dmg:
+            self._fail('C12', f'false-positive-{kind}', f'validate() reports {vs} on a state reached through the public operations')
+        want_tot = (sum(r[6] for r in post.rows), sum(r[4] for r in post.rows),
+                    sum(len(post.pack_bytes[n]) for n in post.pack_names_valid()), sum(len(b) for b in post.loose_bytes.values()))
+        got_tot = (tot['total_size_packed'], tot['total_size_packed_on_disk'], tot['total_size_packfiles_on_disk'], tot['total_size_loose'])
+        if want_tot != got_tot:
+            self._fail('C10', f'totals-{kind}', f'get_total_size {got_tot} but the sums over index rows / files are {want_tot}')
+        for k, key in zip(ks, keys):
+            if k in rc.expected and k not in dmg:
+                try:
+                    m = c.get_object_meta(key)
+                except Exception as exc:  # pylint: disable=broad-except
+                    self._fail('C10', f'meta-raised-{kind}', f'get_object_meta(cid {k}) raised {type(exc).__name__}')
+                    continue
+                if m['size'] != self.pool.size(k):
+                    self._fail('C10', f'meta-size-{kind}', f'cid {k}: recorded size {m["size"]}, content has {self.pool.size(k)} bytes')
+                if m['type'].value == 'packed':
+                    stored = len(self.pool.zbytes(k, rc.cfg.level)) if m['pack_compressed'] else self.pool.size(k)
+                    if m['pack_length'] != stored and not m['pack_compressed']:
+                        self._fail('C10', f'meta-length-{kind}', f'cid {k}: stored length {m["pack_length"]} but it occupies {stored} bytes')
         exp = rc.expected
         for k, key, h in zip(ks, keys, has):
+            if k in dmg:
+                continue
             if h != (k in exp):
                 self._fail('C02', f'has-{kind}', f'has_object(cid {k}) = {h}, the plain map says {k in exp}')
             data = single.get(k)
@@ -492,6 +588,8 @@ class Runner:
         if set(bulk_all) != set(req):
             self._fail('C02', f'bulk-all-keys-{kind}', 'bulk read (report missing) did not report each requested key once')
         for k, key in zip(ks, keys):
+            if k in dmg:
+                continue
             want = self.pool.contents[k] if k in exp else None
             if bulk_all.get(key) != want or (k in exp and bulk.get(key) != want):
                 self._fail('C02', f'bulk-content-{kind}', f'bulk read of cid {k} differs from the map')
@@ -508,9 +606,12 @@ class Runner:
     def _oracle_step(self, rc: RealCont, op: dict, pre: Raw, post: Raw, real_out: str):
         kind = op['op']
         # C03: raw consistency, manual recovery
+        dmg = {k for (nm, k) in self.damaged if nm == rc.name} | ({op['k']} if kind == 'damage' else set())
         for p in post.consistency_problems():
+            if dmg and p.startswith('loose file'):
+                continue
             self._fail('C03', f'raw-{kind}', p)
-        for k in sorted(rc.expected):
+        for k in sorted(rc.expected - dmg):
             key = rc.key(k)
             try:
                 data = post.recover(key)
@@ -522,7 +623,7 @@ class Runner:
             if data != self.pool.contents[k]:
                 self._fail('C03', f'recover-{kind}', f'manual recovery of cid {k} gives {None if data is None else len(data)} bytes')
         # C13: packs only grow at the end (histories without repack; delete does not touch packs)
-        if kind != 'repack':
+        if kind not in ('repack', 'repackOne'):
             for name, old in pre.pack_bytes.items():
                 new = post.pack_bytes.get(name)
                 last_ref = max([r[3] + r[4] for r in pre.rows if str(r[2]) == name], default=0)
@@ -532,6 +633,7 @@ class Runner:
                     continue
                 if new[:last_ref] != old[:last_ref] or len(new) < last_ref:
                     self._fail('C13', f'pack-rewritten-{kind}', f'referenced bytes of pack {name} changed or were cut ({len(old)} -> {len(new)} bytes)')
+        self._oracle_modes(rc, op, pre, post, real_out)
         # C09: multiplicities
         keys = [r[1] for r in post.rows]
         if len(keys) != len(set(keys)):
@@ -548,6 +650,82 @@ class Runner:
                 newref = tot_ref.get(name, 0) - pre_ref.get(name, 0)
                 if grown != newref:
                     self._fail('C09', 'noholes-junk', f'no_holes call grew pack {name} by {grown} bytes but references only {newref} new bytes')
+
+
+def _oracle_modes(self, rc, op, pre, post, real_out):
+    """direct oracles of C10 (modes), C11 (delete / repack compaction), C13 (numbering), C14 (import)"""
+    kind = op['op']
+    if real_out.startswith('raised'):
+        self._fail('C02', f'op-raised-{kind}', f'{kind} raised: {real_out}')
+        return
+    pre_rows = {r[1]: r for r in pre.rows}
+    post_rows = {r[1]: r for r in post.rows}
+    if kind in ('packAll', 'repack', 'repackOne'):
+        mode = _mode_name(op['mode'])
+        affected = [k for k in post_rows if k not in pre_rows] if kind == 'packAll' else [k for k in post_rows if kind == 'repack' or post_rows[k][2] == op['p']]
+        for k in affected:
+            z = bool(post_rows[k][5])
+            was = bool(pre_rows[k][5]) if k in pre_rows else False
+            bad = (mode == 'yes' and not z) or (mode == 'no' and z) or (mode == 'keep' and z != was)
+            if bad:
+                self._fail('C10', f'mode-{kind}-{mode}', f'{kind}({mode}) left key {k[:10]} with compressed={z} (was {was})')
+    if kind == 'delete':
+        req = {rc.key(k) if isinstance(k, int) else k for k in op['ks']}
+        existed = {k for k in req if k in pre_rows or k in pre.loose_bytes}
+        got = real_out[len('deleted='):]
+        want = show_nats(sorted(rc.cid(k) for k in existed))
+        if got != want:
+            self._fail('C11', 'delete-return', f'delete_objects returned cids {got}, the requested keys that existed are {want}')
+        for k in req:
+            if k in post_rows or k in post.loose_bytes:
+                self._fail('C11', 'delete-left', f'key {k[:10]} still present after delete_objects')
+        for k in set(pre_rows) | set(pre.loose_bytes):
+            if k not in req and k not in post_rows and k not in post.loose_bytes:
+                self._fail('C11', 'delete-extra', f'key {k[:10]} was not requested but is gone')
+    if kind == 'repack':
+        per = {}
+        for r in post.rows:
+            per.setdefault(str(r[2]), []).append(r)
+        for name in post.pack_names_valid():
+            rs = sorted(per.get(name, []), key=lambda r: (r[3], r[4]))
+            if not rs:
+                self._fail('C11', 'repack-empty-pack', f'pack {name} has no live object after a full repack but still exists')
+                continue
+            pos = 0
+            for r in rs:
+                if r[3] != pos:
+                    self._fail('C11', 'repack-hole', f'pack {name}: unreferenced bytes before offset {r[3]} after a full repack')
+                    break
+                pos = r[3] + r[4]
+            else:
+                if pos != len(post.pack_bytes[name]):
+                    self._fail('C11', 'repack-tail', f'pack {name}: {len(post.pack_bytes[name]) - pos} unreferenced bytes at the end after a full repack')
+    if getattr(self, 'numbering', False) and kind not in ('repack', 'repackOne'):
+        ids = sorted(int(n) for n in post.pack_names_valid())
+        if ids != list(range(len(ids))):
+            self._fail('C13', f'numbering-{kind}', f'pack files {ids} are not numbered consecutively from zero')
+        for i in ids[:-1]:
+            if len(post.pack_bytes[str(i)]) < rc.cfg.target:
+                self._fail('C13', f'not-full-{kind}', f'pack {i} has {len(post.pack_bytes[str(i)])} bytes < target {rc.cfg.target} but pack {ids[-1]} exists')
+        for name, old in pre.pack_bytes.items():
+            new = post.pack_bytes.get(name)
+            if new is not None and new != old and len(old) >= rc.cfg.target and name in pre.pack_names_valid():
+                # a full pack may only have been full *after* its last write
+                last_before = max([r[3] for r in pre.rows if str(r[2]) == name] + [0])
+                if last_before >= rc.cfg.target or len(old) >= rc.cfg.target and new[:len(old)] == old and len(new) > len(old):
+                    self._fail('C13', f'full-written-{kind}', f'pack {name} had reached the target ({len(old)} >= {rc.cfg.target}) and was written again')
+    if kind == 'import':
+        src = self.conts[op['src']]
+        grown = sum(len(b) for b in post.pack_bytes.values()) - sum(len(b) for b in pre.pack_bytes.values())
+        newref = sum(r[4] for k, r in post_rows.items() if k not in pre_rows)
+        if grown != newref:
+            self._fail('C14', 'import-junk', f'import grew the packs by {grown} bytes but indexed {newref} new bytes')
+        for k, r in pre_rows.items():
+            if post_rows.get(k) != r:
+                self._fail('C14', 'import-touched', f'index row of key {k[:10]} changed during import')
+
+
+Runner._oracle_modes = _oracle_modes
 
 
 def default_cfg(rng, small_target_prob=0.6) -> Cfg:
